@@ -33,6 +33,15 @@ pub struct Fail {
 pub fn known_rule(kind: &str, family: &str, detail: &str, schema: &Schema, o: &Opts, windowed: bool) -> Option<String> {
     let has_ree = schema.fields().iter().any(|f| contains_type(f.data_type(), &|d| matches!(d, DataType::RunEndEncoded(..))));
     let top_union = schema.fields().iter().any(|f| contains_type(f.data_type(), &|d| matches!(d, DataType::Union(..))));
+    if kind == "flight-encode-err" && detail.contains("cannot cast Union with fields") && schema.fields().iter().any(|f| contains_type(f.data_type(), &|d| matches!(d, DataType::Union(fs, arrow_schema::UnionMode::Dense) if fs.iter().any(|(_, c)| contains_dictionary(c.data_type())))))
+    {
+        // hydrate_dictionary special-cases sparse unions only; a dense union with a dictionary child goes to arrow_cast::cast
+        return Some("c04:flight-encoder:hydrate:dense-union-with-dictionary-child:cast-unsupported".to_string());
+    }
+    if kind.starts_with("flight-") && top_union && (kind.ends_with("encode-err") || kind.ends_with("read-err")) && detail.contains("Found unmasked nulls for non-nullable StructArray field") {
+        // consequence of the cleared nullable flag on a union-typed struct member
+        return Some("c04:flight-encoder:union-field:nullable-flag-cleared".to_string());
+    }
     if kind == "flight-encode-err" && top_union && detail.contains("Non-nullable field of") && detail.contains("cannot contain nulls") {
         // same root cause as the schema difference: the hydrating cast targets the rebuilt (non-nullable) nested union field
         return Some("c04:flight-encoder:union-field:nullable-flag-cleared".to_string());
